@@ -101,7 +101,7 @@ TEXT.update({
     "C10": {
         "level": "One inductive step from an arbitrary valid map (1-3 regions, symbolic 64-bit bases and sizes): from_regions/from_arc_regions error variant iff model condition; insert_region Ok iff no byte overlaps (one-byte overlap, duplicate start, exact adjacency all reachable), new map = old + region with pointer identity of the inserted handle; remove_region Ok iff exact (start,size) match, returns the very same region object; old map's answers unchanged; region creation refused iff base+size overflows.",
         "design_ref": "DESIGN.md §4 C10",
-        "note": "std's stable_sort and Vec::remove replaced by small models (environment); one question per query; maps <= 3 regions; 2-region inserts in the thorough tier",
+        "note": "std's stable_sort and Vec::remove replaced by small models (environment); one question per query; inserts from 1-region maps, removes from 1-3-region maps",
         "technique": _T + "; symbolic layouts, one step + one question per query, std sort/remove models",
     },
     "C12": {
